@@ -529,8 +529,21 @@ fn handle_a2ml(
                 crate::verif_hooks::tick();
                 // find the next occurrence of '/'
                 // this should be the start of one of "/*", "//", or "/end"
+                // Quoted text (tags and the file names of /include directives) is skipped, it can contain any of these
                 while bytepos < datalen && filebytes[bytepos] != b'/' {
-                    bytepos += 1;
+                    if filebytes[bytepos] == b'"' {
+                        // skip to the closing quote. Quoted text does not continue on the next line
+                        bytepos += 1;
+                        while bytepos < datalen
+                            && filebytes[bytepos] != b'"'
+                            && filebytes[bytepos] != b'\n'
+                        {
+                            bytepos += 1;
+                        }
+                    }
+                    if bytepos < datalen {
+                        bytepos += 1;
+                    }
                 }
                 if bytepos == datalen {
                     // the input ends inside the A2ML block
@@ -558,7 +571,13 @@ fn handle_a2ml(
                     if bytepos > datalen {
                         bytepos = datalen;
                     }
-                } else if filebytes[bytepos..].starts_with(b"/end") {
+                } else if filebytes[bytepos..].starts_with(b"/end")
+                    && filebytes
+                        .get(bytepos + 4)
+                        .is_none_or(|c| !is_pathchar(*c))
+                {
+                    // "/end" as a word of its own, not the beginning of a longer word such as the file
+                    // name "sub/endpoints.aml" in an /include directive
                     done = true;
                 } else {
                     // solitary '/' hanging around? this will definitely be a parse error later on
